@@ -58,6 +58,7 @@ type srvEvent struct {
 }
 
 type srvRun struct {
+	res     *hx.Result
 	mu      sync.Mutex
 	cond    *sync.Cond
 	events  []srvEvent
@@ -122,7 +123,12 @@ func srvMessage(i int, uniform bool) p9p.Message {
 	case 4:
 		return p9p.MessageTread{Fid: f, Offset: uint64(i) << 33, Count: 17}
 	case 5:
-		return p9p.MessageTwrite{Fid: f, Offset: 7, Data: []byte{1, 2, byte(i)}}
+		// (long enough that a later frame read into the same buffer would overwrite it)
+		d := make([]byte, 64)
+		for k := range d {
+			d[k] = byte(i*31 + k)
+		}
+		return p9p.MessageTwrite{Fid: f, Offset: 7, Data: d}
 	case 6:
 		return p9p.MessageTcreate{Fid: f, Name: "n", Perm: 0644, Mode: p9p.OWRITE}
 	case 7:
@@ -298,6 +304,11 @@ func (h srvHandler) Handle(ctx context.Context, msg p9p.Message) (p9p.Message, e
 		k = "err"
 	}
 	r.mu.Lock()
+	// the message belongs to the handler for as long as it runs: it must still be what was sent
+	if known && !reflect.DeepEqual(want, msg) && r.res != nil {
+		r.res.Violate("C06", "handler-message-changed-while-held", fmt.Sprintf("the message handed to the handler of request %d was %+v when it was invoked and reads %+v when it returns (later frames were received meanwhile)", id, want, msg),
+			map[string]interface{}{"engine": "serve", "scenario_run": r.sc})
+	}
 	r.log(srvEvent{E: "exit", ID: id, Kind: k})
 	r.mu.Unlock()
 	return res, err
@@ -327,7 +338,7 @@ func (r *srvRun) waitFor(d time.Duration, pred func() bool) bool {
 
 // runScenario executes one scenario; returns the events and a hang description (if ServeConn did not return).
 func runSrvScenario(sc srvScenario, scn int, res *hx.Result) []srvEvent {
-	r := &srvRun{sc: scn, sent: map[int]p9p.Message{}, gates: map[int]chan struct{}{}, ctxs: map[int]context.Context{},
+	r := &srvRun{res: res, sc: scn, sent: map[int]p9p.Message{}, gates: map[int]chan struct{}{}, ctxs: map[int]context.Context{},
 		entered: map[int]bool{}, honour: map[int]bool{}, faultCh: make(chan struct{}),
 		cout: map[int]int{}, fl: map[int]int{}, flOld: map[int]int{}, kind: map[int]string{}, released: map[int]bool{},
 		tagOf: map[int]int{}, dupPend: map[int]int{}}
